@@ -48,6 +48,7 @@ def plan(tier, seed):
     shards = [{"part": "tables", "bin": b, "nmax": nmax, "seed": seed, "half": h} for b in BINS for h in (0, 1)]
     shards += [{"part": "random", "seed": seed, "k": k, "n": 40 if tier == "quick" else 400} for k in range(2)]
     shards += [{"part": "cli", "seed": seed, "k": k} for k in range(2 if tier == "quick" else 6)]
+    shards += [{"part": "same", "seed": seed, "k": k, "n": 15 if tier == "quick" else 200} for k in range(2)]
     shards += [{"part": "ambient", "seed": seed, "k": k, "n": 120 if tier == "quick" else 1000} for k in range(2)]
     return shards
 
@@ -231,6 +232,50 @@ def run_random(desc, ctx):
                 ctx.violation("exception|%s|%s" % (name, type(e).__name__), repr(e), {"metric": name, "bin": b})
 
 
+def run_same_arrays(desc, ctx):
+    """One pair of arrays (the same objects, as a Data object hands them out) evaluated for all eight bin types in turn, values
+    tying with the thresholds: each table is that bin type's own, whatever was asked before."""
+    import numpy as np
+    import verif.util
+    mets = {n: cls() for n, cls in cat_metrics().items() if n in ("a", "b", "c", "d", "hit", "fa", "ets", "pc")}
+    rng = random.Random("C06-same-%s-%s" % (desc["seed"], desc["k"]))
+    for _ in range(desc["n"]):
+        t0 = rng.choice([0.0, 1.0, 2.5])
+        t1 = t0 + rng.choice([1.0, 3.0])
+        vals = [t0 - 1, t0, (t0 + t1) / 2, t1, t1 + 1, NAN]
+        n = rng.choice([10, 40, 200])
+        obs = rng.choices(vals, k=n)
+        fc = rng.choices(vals, k=n)
+        o = np.array(obs)
+        f = np.array(fc)
+        order = list(BINS)
+        rng.shuffle(order)
+        for b in order:
+            ul, lc, uu, uc = attach.BIN_TABLE[b]
+            ths = [t0, t1] if (ul and uu) else [t0]
+            iv = verif.util.get_intervals(b, np.array(ths))[0]
+            a = bb = c = d = 0
+            for ov, fv in zip(obs, fc):
+                eo = attach.in_documented_event(ov, b, t0, t1)
+                ef = attach.in_documented_event(fv, b, t0, t1)
+                if eo is None or ef is None:
+                    continue
+                a += ef and eo
+                bb += ef and not eo
+                c += (not ef) and eo
+                d += (not ef) and (not eo)
+            for name, m in mets.items():
+                want = refmetrics.categorical(name, a, bb, c, d)
+                ctx.count("same_array_evals")
+                ctx.case("%s|%s|same-arrays" % (name, b), True)
+                try:
+                    got = m.compute_from_obs_fcst(o, f, iv)
+                    check_value(ctx, "after-other-bin-type|" + name, got, want, "%s for bin %s on arrays already evaluated for other bin "
+                                "types (order %s), table %s" % (name, b, order, (a, bb, c, d)), {"metric": name, "bin": b, "order": order})
+                except Exception as e:
+                    ctx.violation("exception|%s|%s" % (name, type(e).__name__), repr(e), {"metric": name, "bin": b})
+
+
 def run_cli(desc, ctx):
     rng = random.Random("C06-cli-%s-%s" % (desc["seed"], desc["k"]))
     d = os.path.join(ctx.workdir, "cli")
@@ -354,6 +399,8 @@ def run_shard(desc, ctx):
         run_random(desc, ctx)
     elif part == "cli":
         run_cli(desc, ctx)
+    elif part == "same":
+        run_same_arrays(desc, ctx)
     else:
         attach.attach_events(ctx)
         ambient.run(ctx, "c06-%s-%s" % (desc["seed"], desc["k"]), desc["n"])
